@@ -96,10 +96,16 @@ theorem C02_bitmap_loop_bounded (b : Bytes) (end_ : Nat) (st : St) :
   have := (readBitmap_spec b end_ (b.length + 1) st (by omega)).2.1 _ h
   simp [Benign] at this
 
-/-- **Bounded work, every other loop: linear in the length of the datagram.**  `parseWork b` counts, along the
-model's own run, the iterations of the question loop and of the record loop, the calls of `_read_bitmap`, its
-`while` iterations, the bitmap bytes its inner loop scans and the rdtypes it appends — with `names/acts/reads` of
-`C02_work` these are all the loops of `incoming.py` a datagram can drive.  For a datagram of `n` bytes:
+/-- **Bounded work, every other loop of the model: linear in the length of the datagram.**  `parseWork b` is a
+*ghost re-walk*: a second function (`Model/Wire/DecodeWork.lean`) that follows the branches of `parseWith` /
+`readRecords` / `readRData` / `readBitmap` again, calls the model for every state, and counts the iterations of
+the question loop and of the record loop, the calls of `_read_bitmap`, its `while` iterations, the bitmap bytes
+its inner loop scans and the rdtypes it appends.  No theorem says that these counters count the iterations of
+`parse` itself — the lemmas relate each counter to the offsets the model reaches; that the numbers are the loop
+counts of the *code* is checked by stage C (line events of the loop bodies compared on every datagram).  With
+`names/acts/reads` of `C02_work` these are the Python-level loops of the model; work inside C calls (`sorted`,
+`list.extend`, `str.join`, hashing) is counted by no theorem and held only to the harness's CPU yardstick.  For a
+datagram of `n` bytes:
 a question takes at least 5 bytes and a record at least 11; `_read_bitmap` runs at most once per record; **over all
 calls together** the scanned bitmap bytes are disjoint pieces of the datagram and every completed `while` iteration
 consumes two more bytes (`bmBytes + 2·bmIters ≤ n + 2`: the only way the offset moves backwards is `self.offset = end`
@@ -135,8 +141,10 @@ theorem C02_total_work_8966 (b : Bytes) (hb : b.length ≤ 8966) :
 implementation to (stage O: the source lines of the `zeroconf` package executed while decoding a datagram must not
 exceed it, evaluated on the counters measured on the implementation).  On the model's own counters it is bounded
 by a fixed number for every datagram the listener lets through; the part owed to the two section loops and to
-`_read_bitmap` is at most 2 454 768 lines, the rest is the name decoder's product bound of `C02_work_8966`
-(fixed, not small). -/
+`_read_bitmap` is at most 2 454 768 lines, the rest is the name decoder's product bound of `C02_work_8966`:
+fixed, nothing more — about six orders of magnitude above the most expensive datagram known (648 PTR records that
+each walk the same 127-hop chain, which is never cached because it ends in a reserved label: 2.4 million lines,
+the harness's `uncached-chain` family). -/
 theorem C02_lines_8966 (b : Bytes) (hb : b.length ≤ 8966) :
     lineCost (parse b).st.names (parse b).st.acts (parse b).st.reads (parseWork b) ≤ 2489455422768 := by
   obtain ⟨h1, h2, h3⟩ := C02_work_8966 b hb
